@@ -22,7 +22,7 @@ class SpecMixin(object):
         'prefix_of', 'suffix_of', 'contains', 'index_of', 'str_to_int', 'iff', 'distinct_keys',
         'null', 'isnull', 'in_re', 'last', 'card', 'real', 'tag_eq', 'obj_of', 'same_ghost',
         'str_of_int', 'length', 'ref_id', 'distinct', 'sig_mode', 'path_idx', 'slen', 'path_inv',
-        'is_bytes', 'as_bytes',
+        'is_bytes', 'as_bytes', 'init',
     ])
 
     # ------------------------------------------------------------------ entry points
@@ -85,6 +85,13 @@ class SpecMixin(object):
         o.pc = st.pc
         o.old = o          # old(old(e)) = old(e)
         return self.ev1(e.args[0], o)
+
+    def spec_init(self, e, st):
+        """init(x): the entry value of parameter x (loop invariants see the current value under x)"""
+        n = e.args[0]
+        if not isinstance(n, ast.Name) or st.old is None or n.id not in st.old.env:
+            self.oos('init() needs a parameter name', e)
+        return st.old.env[n.id]
 
     def spec_at(self, e, st):
         lab = e.args[0].value
@@ -168,7 +175,10 @@ class SpecMixin(object):
     def _tag(self, e, st, f):
         (a,) = self._args(e, st)
         if a.ty != VAL:
-            a = self.coerce(a, VAL)
+            c = self.coerce(a, VAL)
+            if c is None:
+                return mk_bool(False)
+            a = c
         return SV(BOOL, f(a.z))
 
     def spec_is_int(self, e, st):
@@ -206,13 +216,17 @@ class SpecMixin(object):
     def spec_is_ref(self, e, st):
         return self._tag(e, st, Val.is_VRef)
 
+    def _total(self, v, ty, what):
+        # accessor applied outside its domain: an unspecified value (specs guard with is_xxx)
+        return v if v is not None else fresh(ty, 'undef_' + what)
+
     def spec_as_int(self, e, st):
         (a,) = self._args(e, st)
-        return SV(INT, Val.vi(a.z)) if a.ty == VAL else self.coerce(a, INT)
+        return SV(INT, Val.vi(a.z)) if a.ty == VAL else self._total(self.coerce(a, INT), INT, 'int')
 
     def spec_as_str(self, e, st):
         (a,) = self._args(e, st)
-        return SV(STR, Val.vs(a.z)) if a.ty == VAL else a
+        return SV(STR, Val.vs(a.z)) if a.ty == VAL else self._total(self.coerce(a, STR), STR, 'str')
 
     def spec_as_bool(self, e, st):
         (a,) = self._args(e, st)
@@ -222,7 +236,7 @@ class SpecMixin(object):
         (a,) = self._args(e, st)
         if a.ty == VAL:
             return SV(REAL, z3.If(Val.is_VInt(a.z), z3.ToReal(Val.vi(a.z)), Val.vr(a.z)))
-        return self.coerce(a, REAL)
+        return self._total(self.coerce(a, REAL), REAL, 'real')
 
     def spec_real(self, e, st):
         (a,) = self._args(e, st)
@@ -814,6 +828,9 @@ class SpecMixin(object):
         ret_ty = c.ret
         if ret_ty is None or ret_ty == NONE:
             result = mk_none()
+        elif isinstance(ret_ty, TTuple):
+            result = self.mk_tuple([fresh(t, 'ret%d_%s' % (k, c.qual.split(':')[-1].split('.')[-1]))
+                                    for k, t in enumerate(ret_ty.elems)])
         else:
             result = fresh(ret_ty, 'ret_' + c.qual.split(':')[-1].split('.')[-1])
             if isinstance(ret_ty, TRef):
